@@ -290,7 +290,7 @@ def run_program(seed: int, out: dict):
                     members.append(Member(rel, m.cols, m.leaves, m.dedup, m.xfer, m.sorted_total, m.depth + 1, m.chain))
                     steps.append({"k": "proc", "i": i + 1})
             except Exception as exc:  # noqa: BLE001
-                if "syntax error" in str(exc) and nested_compound(project.tree(m.rel)):
+                if "syntax error" in str(exc) and (nested_compound(project.tree(m.rel)) or ("UNION" in str(exc) and "(SELECT" in str(exc))):
                     cnt["sqlite_nested_compound_skipped"] = cnt.get("sqlite_nested_compound_skipped", 0) + 1
                     continue
                 if type(exc).__name__ == "RelationalAlgebraError" and "will not preserve row order" in str(exc) and chain_with_empty_branch(m.rel):
@@ -324,7 +324,10 @@ def run_program(seed: int, out: dict):
                         res.append(project.rows(processed.engine.execute(processed)))
             except Exception as exc:  # noqa: BLE001
                 msg = str(exc)
-                if "syntax error" in msg and nested_compound(project.tree(m.rel)):
+                if "syntax error" in msg and (nested_compound(project.tree(m.rel)) or ("UNION" in msg and "(SELECT" in msg)):
+                    # SQLite cannot parse the parenthesised nested compound SELECT that SQLAlchemy renders for a chain
+                    # whose operand is a bare chain; process() may produce such a chain even when the tree as built
+                    # has none (temporary tables replace transfers)
                     cnt["sqlite_nested_compound_skipped"] = cnt.get("sqlite_nested_compound_skipped", 0) + 1
                     continue
                 if type(exc).__name__ in ("EngineError", "RelationalAlgebraError") and sql_mat_after_xfer(project.tree(m.rel)) and (
